@@ -94,13 +94,14 @@ type Occurrence struct {
 }
 
 type CaseD struct {
-	Pool []Fragment          `json:"pool"`
-	Cfg  profile.HavocConfig `json:"cfg"`
-	Src  string              `json:"src"`
-	Cfg2 *profile.HavocConfig `json:"cfg2,omitempty"`
-	Src2 string              `json:"src2,omitempty"`
-	Occ  []Occurrence        `json:"occ"`
-	Pad  *Pad                `json:"pad,omitempty"` // file 1: comment / blank-line padding up to a file-size class
+	Pool    []Fragment           `json:"pool"`
+	Cfg     profile.HavocConfig  `json:"cfg"`
+	Src     string               `json:"src"`
+	Cfg2    *profile.HavocConfig `json:"cfg2,omitempty"`
+	Src2    string               `json:"src2,omitempty"`
+	Occ     []Occurrence         `json:"occ"`
+	Pad     *Pad                 `json:"pad,omitempty"`     // file 1: comment / blank-line padding up to a file-size class
+	Classes []string             `json:"classes,omitempty"` // printer classes (spelling and layout) of both files
 }
 
 var attrSpellings = []string{"quoted", "quoted", "heredoc", "heredoc", "heredoc-flush", "quoted-interp", "quoted-if", "heredoc-interp", "heredoc-if", "heredoc-midline", "heredoc-2nd-line", "quoted-midstring"}
@@ -144,7 +145,7 @@ func spellingAllowed(f Fragment, sp string) bool {
 }
 
 // plant builds one profile, plants occurrences of the pool's fragments and renders it.
-func plant(t *rapid.T, pool []Fragment, file int) (profile.HavocConfig, string, []Occurrence, *Pad) {
+func plant(t *rapid.T, pool []Fragment, file int) (profile.HavocConfig, string, []Occurrence, *Pad, []string) {
 	o := genOpts{rich: rapid.SampledFrom([]int{0, 0, 1}).Draw(t, "rich"), maxRepeat: 2, maxColl: 2, presence: 90, zeroPct: 30}
 	cfg := genConfig(t, o)
 	p := newPrinter(t, rapid.SampledFrom([]int{0, 1, 1}).Draw(t, "wild"), false)
@@ -256,7 +257,7 @@ func plant(t *rapid.T, pool []Fragment, file int) (profile.HavocConfig, string, 
 		out = append(out, x.o)
 	}
 	sort.SliceStable(out, func(i, j int) bool { return out[i].Line < out[j].Line })
-	return cfg, src, out, pad
+	return cfg, src, out, pad, p.classList()
 }
 
 func genD(t *rapid.T) CaseD {
@@ -265,11 +266,21 @@ func genD(t *rapid.T) CaseD {
 	for i := 0; i < np; i++ {
 		c.Pool = append(c.Pool, genFragment(t))
 	}
-	c.Cfg, c.Src, c.Occ, c.Pad = plant(t, c.Pool, 1)
+	c.Cfg, c.Src, c.Occ, c.Pad, c.Classes = plant(t, c.Pool, 1)
 	if rapid.Bool().Draw(t, "two") {
-		cfg2, src2, occ2, _ := plant(t, c.Pool, 2)
+		cfg2, src2, occ2, _, cl2 := plant(t, c.Pool, 2)
 		c.Cfg2, c.Src2 = &cfg2, src2
 		c.Occ = append(c.Occ, occ2...)
+		for _, x := range cl2 {
+			dup := false
+			for _, y := range c.Classes {
+				dup = dup || x == y
+			}
+			if !dup {
+				c.Classes = append(c.Classes, x)
+			}
+		}
+		sort.Strings(c.Classes)
 	}
 	return c
 }
@@ -413,6 +424,7 @@ func classifyD(c CaseD) core.Class {
 		}
 	}
 	cl.Labels = append(cl.Labels, padLabels(c.Pad, len(c.Src))...)
+	cl.Labels = append(cl.Labels, layoutLabels(c.Classes)...)
 	cl.Fingerprint = fmt.Sprintf("%s|%s|across=%v|two=%v|bs+marker=%v", best, order, set["shared-source-fragment:across-files:quoted+heredoc"], set["two-files"], set["fragment:backslash-and-marker"])
 	if c.Pad != nil {
 		cl.Fingerprint = "padded" + padFingerprint(c.Pad)
@@ -423,8 +435,8 @@ func classifyD(c CaseD) core.Class {
 func TestC14d(t *testing.T) {
 	core.Run(t, core.Spec[CaseD]{
 		Property: "C14", Sub: "d",
-		Rule: "a pool of 1-4 source-level fragments (2-8 atoms out of \\\\ \\n \\t \\r \\\" \\xHH, $ % $$ %% $${ %%{, path-like and punctuation text) is written verbatim at 2-7 string positions of a generated profile in different spellings: quoted value, inside a longer quoted string, ${\"...\"}, %{if true}...%{endif}, block label, map key, list element, heredoc line (<<ID, <<-ID, second line, middle of a line, ${\"...\"} and %{if} inside a heredoc); items shuffled so that either spelling comes first; in half of the cases a second profile reusing the pool is loaded next in the same process and the first one again after it. Oracle: every occurrence loads as the value its own spelling gives the text (quoted: escapes resolved; heredoc: backslashes literal, only $${ %%{ special), everything else as generated. Every case is non-trivial; distinct = (richest set of rules that meet on one fragment, which came first, same fragment under both rules across the two files, two files?, fragment has backslash and marker)",
-		Gen:   genD, Check: checkD, Classify: classifyD,
+		Rule: "a pool of 1-4 source-level fragments (2-8 atoms out of \\\\ \\n \\t \\r \\\" \\xHH, $ % $$ %% $${ %%{, path-like and punctuation text) is written verbatim at 2-7 string positions of a generated profile in different spellings: quoted value, inside a longer quoted string, ${\"...\"}, %{if true}...%{endif}, block label, map key, list element, heredoc line (<<ID, <<-ID, second line, middle of a line, ${\"...\"} and %{if} inside a heredoc); items shuffled so that either spelling comes first; in half of the cases a second profile reusing the pool is loaded next in the same process and the first one again after it. Oracle: every occurrence loads as the value its own spelling gives the text (quoted: escapes resolved; heredoc: backslashes literal, only $${ %%{ special), everything else as generated. Every case is non-trivial; distinct = (richest set of rules that meet on one fragment, which came first, same fragment under both rules across the two files, two files?, fragment has backslash and marker). The files use the layout dimensions of sub-check a (single-line blocks also around a planted list / map value that spans lines, empty blocks on one line, odd block-header and = spacing, runs of blank lines, trailing commas, CRLF, no final newline), shown as labels layout:<class>",
+		Gen:  genD, Check: checkD, Classify: classifyD,
 		Assumptions: []string{
 			"same comparison as sub-check a (NFC, nil = empty collection)",
 			"a constant template sequence (${\"text\"}, %{if true}text%{endif}) is a spelling of that text; the loader evaluates profiles without variables",
